@@ -497,6 +497,8 @@ def oracle(chk, n, hints=()):
         parser_oracle(chk)
     if not chk.failures:
         shared_declaration_oracle(chk)
+    if not chk.failures:
+        enum_alias_oracle(chk)
 
 
 def parser_oracle(chk):
@@ -527,6 +529,33 @@ def parser_oracle(chk):
                 chk.fail('config:parser', f"environment text {text!r} for four integer values with different parsers, read in the order {list(order)}: "
                          f"{bad[0]} gives {got[bad[0]]!r}, its parser gives {expect[bad[0]]!r}", {'text': text, 'order': list(order)})
                 return
+
+
+def enum_alias_oracle(chk):
+    """every NAME of an enum member is a text form of it - also an alias (a second name of one value), in the letter cases the lookup order admits"""
+    from pyroll.core.config import config
+
+    class Grade(enum.Enum):
+        SOFT = 1
+        HARD = 2
+        ANNEALED = 1      # alias of SOFT
+        tough = 2         # lower-case alias of HARD
+
+    @config("VE")
+    class ECfg:
+        GRADE = Grade.HARD
+    for text, want in (('ANNEALED', Grade.SOFT), ('annealed', Grade.SOFT), ('tough', Grade.HARD), ('SOFT', Grade.SOFT), ('hard', Grade.HARD), ('1', Grade.SOFT)):
+        os.environ['VE_GRADE'] = text
+        chk.cov['evaluations'] += 1
+        try:
+            got = ECfg.GRADE
+        except Exception as e:      # noqa
+            got = f"{type(e).__name__}: {e}"
+        finally:
+            os.environ.pop('VE_GRADE', None)
+        if got is not want:
+            return chk.fail('config:get', f"an enum value with environment text {text!r} (members SOFT = 1, HARD = 2, aliases ANNEALED = 1, tough = 2): read gives {got!r}, "
+                            f"the member of that name is {want!r}", {'text': text, 'case': 'enum alias'})
 
 
 def shared_declaration_oracle(chk):
